@@ -32,8 +32,9 @@ def renderings(line, cfg, salt, every):
     if f == "pct_phrase":
         xs = render.operand_texts(line["x"], cfg, every, salt)
         for i, (xv, xt) in enumerate(xs):
-            for st in ("after", "before"):
-                pt = render.pct_text(line["p"], cfg, st)
+            big = abs(render.q_fraction(line["p"])) >= 1000
+            for st in ("after", "before") + (("after.grouped", "before.grouped") if big else ()):
+                pt = render.pct_text(line["p"], cfg, st.split(".")[0], group=st.endswith("grouped"))
                 if line["w"] in "+-":
                     out.append(("%s.%s" % (xv, st), "%s %s %s" % (xt, line["w"], pt)))
                 else:
@@ -44,8 +45,9 @@ def renderings(line, cfg, salt, every):
             out.append((av, "%s is what %% of %s" % (at, bt)))
     elif f == "pct_total":
         for av, at in render.operand_texts(line["a"], cfg, every, salt):
-            for st in ("after", "before"):
-                out.append(("%s.%s" % (av, st), "%s is %s of what" % (at, render.pct_text(line["p"], cfg, st))))
+            big = abs(render.q_fraction(line["p"])) >= 1000
+            for st in ("after", "before") + (("after.grouped", "before.grouped") if big else ()):
+                out.append(("%s.%s" % (av, st), "%s is %s of what" % (at, render.pct_text(line["p"], cfg, st.split(".")[0], group=st.endswith("grouped")))))
     return out
 
 
